@@ -60,6 +60,10 @@ LawExprs == << <<96,49,48,48,48,48,48,48,48,48,48,48,48,48,48,48,48,48,48,48,48,
                <<96,48,46,49,48,48,48,48,48,48,48,48,48,48,48,48,48,48,48,48,53,53,53,49,49,49,53,49,50,51,49,50,53,55,56,50,55,96>>, <<101>>, <<101,32,42,32,96,49,96>>, <<96,48,46,49,96>>, <<116,111,95,110,117,109,98,101,114,40,39,48,46,49,39,41>>,
                <<91,97,93>>, <<91,96,49,48,48,48,48,48,48,48,48,48,48,48,48,48,48,48,48,48,48,48,48,48,48,48,48,48,48,48,48,48,48,48,48,48,48,48,48,96,93>>, <<91,98,93>>, <<123,107,58,32,97,125>>, <<123,107,58,32,98,125>>, <<123,107,58,32,96,49,101,51,54,96,125>>,
                <<104>>, <<96,57,48,48,55,49,57,57,50,53,52,55,52,48,57,57,51,96>>, <<104,32,43,32,96,48,96>>, <<96,57,48,48,55,49,57,57,50,53,52,55,52,48,57,57,50,96>>, <<105>>, <<105,32,43,32,96,49,96>> >>
+\* numerals outside the decimal128 range (a separate case: the first law broken ends a case)
+LawExprsOver == << <<96,49,101,55,48,48,48,96>>, <<96,49,48,101,54,57,57,57,96>>, <<96,49,101,55,48,48,48,96,32,43,32,96,48,96>>, <<96,45,49,101,55,48,48,48,96>>, <<96,91,49,101,55,48,48,48,93,96>>, <<96,49,101,54,49,52,53,96>>, <<96,48,96>> >>
+LawExprsRange == << <<96,49,101,45,55,48,48,48,96>>, <<96,50,101,45,55,48,48,48,96>>, <<96,48,96>>, <<96,49,101,54,49,52,52,96>>, <<96,57,46,57,57,57,57,57,57,57,57,57,57,57,57,57,57,57,57,57,57,57,57,57,57,57,57,57,57,57,57,57,57,57,57,57,101,54,49,52,52,96>>, <<96,49,48,101,54,49,52,51,96>>,
+                    <<96,49,101,45,54,49,55,54,96>>, <<96,49,101,45,54,49,55,55,96>>, <<96,48,46,49,101,45,54,49,55,53,96>>, <<96,45,48,96>>, <<96,48,101,55,48,48,48,96>>, <<96,48,46,48,96>> >>
 LawDoc == [t |-> "obj", o |-> <<
   [k |-> <<97>>, v |-> [t |-> "num", big |-> "1000000000000000000000000000000000001"]],
   [k |-> <<98>>, v |-> [t |-> "num", big |-> "1e36"]],
@@ -100,4 +104,8 @@ Check == idx > 0 =>
           IN /\ Emit => PrintT("CASE " \o ToJson(case))
              /\ (Emit /\ i <= Len(LawCarriers)) =>
                    PrintT("CASE " \o ToJson([p |-> Prop, kind |-> "eqlaws", exprs |-> LawExprs, doc |-> LawDoc, carriers |-> LawCarriers[i]]))
+             /\ (Emit /\ i = 1) =>
+                   PrintT("CASE " \o ToJson([p |-> Prop, kind |-> "eqlaws", exprs |-> LawExprsRange, doc |-> LawDoc, carriers |-> LawCarriers[1]]))
+             /\ (Emit /\ i = 1) =>
+                   PrintT("CASE " \o ToJson([p |-> Prop, kind |-> "eqlaws", exprs |-> LawExprsOver, doc |-> LawDoc, carriers |-> LawCarriers[1]]))
 =============================================================================
